@@ -130,9 +130,9 @@ pub fn run_with(path: PathBuf, src: &str, opts: &Opts) -> Outcome {
       allocator_verif::set_force_full(None);
       let show = |s: &allocator_verif::Stats| {
         format!(
-          "{{\"bytes_allocated\":{},\"next_gc\":{},\"gc_count\":{},\"heap_len\":{},\"obj_heap_len\":{},\"nursery_len\":{},\"heap_bytes\":{},\"obj_heap_bytes\":{},\"nursery_bytes\":{},\"intern_len\":{},\"temp_roots\":{}}}",
+          "{{\"bytes_allocated\":{},\"next_gc\":{},\"gc_count\":{},\"heap_len\":{},\"obj_heap_len\":{},\"nursery_len\":{},\"heap_bytes\":{},\"obj_heap_bytes\":{},\"nursery_bytes\":{},\"intern_len\":{},\"temp_roots\":{},\"string_objects\":{}}}",
           s.bytes_allocated, s.next_gc, s.gc_count, s.heap_len, s.obj_heap_len, s.nursery_len, s.heap_bytes,
-          s.obj_heap_bytes, s.nursery_bytes, s.intern_len, s.temp_roots
+          s.obj_heap_bytes, s.nursery_bytes, s.intern_len, s.temp_roots, s.string_objects
         )
       };
       ex.push(("stats_end".to_string(), show(&before)));
